@@ -6,7 +6,8 @@ EXTENDS Export, Json
 CONSTANTS MaxN,      \* collections of up to MaxN chunks in the configuration product
           MaxB,      \* collections of up to MaxB chunks for the batch / stream loops
           MaxF,      \* collections of up to MaxF chunks for filter chains
-          Wide       \* TRUE: the full adversarial text set
+          Wide,      \* TRUE: the full adversarial text set
+          QVariants  \* chain variants per keyword in the case-pair family (1..5)
 
 \* ---------------------------------------------------------------- texts
 AdvQ == { <<>>, <<"w1">>, <<"w1", "COMMA", "QUOTE", "w2">>, <<"TAB", "w1", "CR", "LF">>, <<"LF">>,
@@ -110,11 +111,41 @@ PredSeq == SetToSeq(Preds)
 FChunksOf(sel) == [p \in 1..Len(sel) |-> FArch(sel[p], p)]
 CasesD == {<<"D", sel, p, q>> : sel \in Colls(MaxF, 1..4), p \in 1..Len(PredSeq), q \in 0..Len(PredSeq)}
 
+\* ------------------------------------------- Q: Search and FilterBySection over case pairs
+\* One collection per group of related characters: a chunk for EVERY text of <= 3 characters over the
+\* group and a digit, so the keyword occurs at the start, in the middle, at the end, twice, overlapping
+\* itself or not at all; the keyword is every text of <= 2 characters, in either case.
+\* <<"Q", g, n, v>>: group g, n-th keyword, chain variant v
+QGroups == << <<"a", "A">>, <<"e1", "E1">>, <<"I1", "i">>, <<"KS", "k", "K">>, <<"sf", "sg", "SG">>,
+              <<"ls", "s", "S">>, <<"ss", "SS">>, <<"AS", "as">>, <<"EMOJI", "NUL">> >>
+QAlpha(g) == {QGroups[g][n] : n \in 1..Len(QGroups[g])} \cup {"d7"}
+QSeqs(g, m) == UNION {[1..n -> QAlpha(g)] : n \in 0..m}
+\* zero-arity on purpose: TLC evaluates these once at start-up instead of once per use
+QTextsAll == [g \in 1..Len(QGroups) |-> SetToSeq(QSeqs(g, 3))]
+QKwsAll == [g \in 1..Len(QGroups) |-> SetToSeq(QSeqs(g, 2))]
+QTexts(g) == QTextsAll[g]
+QKws(g) == QKwsAll[g]
+\* the chunk's section title and section path repeat its text: FilterBySection must match exactly,
+\* without any case mapping
+QChunk(text, p) == [Base EXCEPT !.id = <<"n" \o ToString(p)>>, !.text = text, !.section = text,
+                                !.path = IF text = <<>> THEN <<>> ELSE <<text>>, !.tokens = p % 10,
+                                !.list = (p % 2 = 1), !.index = p % 7]
+QChunksAll == [g \in 1..Len(QGroups) |-> [p \in 1..Len(QTextsAll[g]) |-> QChunk(QTextsAll[g][p], p)]]
+QChunks(g) == QChunksAll[g]
+QChain(kw, v) ==
+    CASE v = 1 -> <<Pr("search", kw, 0, 0, "", <<>>)>>
+      [] v = 2 -> <<Pr("search", kw, 0, 0, "", <<>>), Pr("maxtok", <<>>, 5, 0, "", <<>>)>>
+      [] v = 3 -> <<Pr("lists", <<>>, 0, 0, "", <<>>), Pr("search", kw, 0, 0, "", <<>>)>>
+      [] v = 4 -> <<Pr("section", kw, 0, 0, "", <<>>)>>
+      [] v = 5 -> <<Pr("search", kw, 0, 0, "", <<>>), Pr("search", <<"d7">>, 0, 0, "", <<>>)>>
+CasesQ == UNION {{<<"Q", g, n, v>> : n \in 1..Len(QKws(g)), v \in 1..QVariants} : g \in 1..Len(QGroups)}
+
 McExpand(d) ==
     CASE d[1] = "A" -> Case("export", <<ChunkA(d[2], d[3], d[4])>>, d[5], DefCfg(d[5]), 0, <<>>)
       [] d[1] = "B" -> Case("export", ChunksOf(d[2]), FmtCfgSeq[d[3]][1], FmtCfgSeq[d[3]][2], 0, <<>>)
       [] d[1] = "C" -> Case("batch", ChunksOf(d[2]), BatchCfgSeq[d[3]][1], BatchCfgSeq[d[3]][2], d[4], <<>>)
       [] d[1] = "S" -> Case("stream", ChunksOf(d[2]), d[3], [DefCfg(d[3]) EXCEPT !.pretty = FALSE], 1, <<>>)
+      [] d[1] = "Q" -> Case("filter", QChunks(d[2]), "none", DefCfg("x"), 0, QChain(QKws(d[2])[d[3]], d[4]))
       [] d[1] = "E" -> Case("export", FChunksOf(d[2]), d[4], DefCfg(d[4]), 0, <<PredSeq[d[3]]>>)
       [] d[1] = "D" -> Case("filter", FChunksOf(d[2]), "none", DefCfg("x"), 0,
                             IF d[4] = 0 THEN <<PredSeq[d[3]]>> ELSE <<PredSeq[d[3]], PredSeq[d[4]]>>)
@@ -123,7 +154,7 @@ McExpand(d) ==
 \* <<"E", sel, p, fmt>>: FChunksOf(sel) filtered by <<PredSeq[p]>>, the result exported
 CasesE == {<<"E", sel, p, f>> : sel \in {x \in Colls(MaxF + 1, 1..4) : Len(x) >= 2}, p \in 1..Len(PredSeq), f \in {"jsonl", "csv"}}
 
-AllCases == CasesA \cup CasesB \cup CasesCUsed \cup CasesS \cup CasesD \cup CasesE
+AllCases == CasesA \cup CasesB \cup CasesCUsed \cup CasesS \cup CasesD \cup CasesE \cup CasesQ
 LoopCases == CasesCUsed \cup CasesS
 \* the negative control of position independence: JSON exports and loops of small collections
 PosCases == {c \in CasesB : FmtCfgSeq[c[3]][1] = "jsonl" /\ FmtCfgSeq[c[3]][2] = DefCfg("jsonl")} \cup CasesS
@@ -134,6 +165,8 @@ Emit == done => PrintT(ToJson(
            [mode |-> X.mode, fmt |-> X.fmt, cfg |-> X.cfg, fields |-> FieldNames(X.cfg),
             size |-> X.size, chunks |-> X.chunks,
             preds |-> X.preds,
+            lower |-> IF X.mode = "filter" THEN SetToSeq(LowerPairs) ELSE <<>>,
+            alphabet |-> IF X.mode = "filter" THEN SetToSeq(CaseAlphabet) ELSE <<>>,
             batches |-> [n \in 1..Len(emitted) |-> BatchOut(emitted[n])],
             sel |-> [n \in 1..Len(cur) |-> X.chunks[cur[n]].id]]))
 =============================================================================
